@@ -120,6 +120,9 @@ func (t *loopTr) sigOf(c *ast.CallExpr) (*fnSig, *types.Func) {
 		}
 	}
 	if id == nil {
+		if sig, fn := t.ifaceMethodSig(c); sig != nil { // stage 11 (loops_iface.go): x.m() on a value of a named type of the package
+			return sig, fn
+		}
 		// v.m(…) on a package-level variable v of type *T (T a struct of the package): the fields of v that m reads are
 		// parameters v_f of the translation (read-only: m must not assign fields, nothing may assign v)
 		if f, ok := unparen(c.Fun).(*ast.SelectorExpr); ok {
@@ -268,6 +271,7 @@ func (t *loopTr) flowCall(st ast.Stmt, c *ast.CallExpr, sig *fnSig, lhs []ast.Ex
 			t.absDeps[sig.lean] = sig.absType
 		}
 	}
+	fieldArgs = append(fieldArgs, t.ifaceRecvArgs(c)...) // stage 11 (loops_iface.go): the value receiver of x.m()
 	if sig.flow && !m.flow {
 		t.fail(c, "internal error: call of a function that may panic outside a flow block")
 	}
@@ -497,6 +501,9 @@ func (t *loopTr) argValue(a ast.Expr) (string, lkind) {
 	}
 	if se.Slice3 {
 		t.fail(a, "three-index slice expression")
+	}
+	if s, k, ok := t.ifaceFieldSlice(se); ok { // stage 11 (loops_iface.go): x.f[:] of a struct value
+		return s, k
 	}
 	var list string
 	var k lkind
@@ -1336,6 +1343,9 @@ func (t *loopTr) isAsTarget(o types.Object) bool {
 func (t *loopTr) readOnlyRecvArgs(c *ast.CallExpr, sig *fnSig) []string {
 	if !sig.method {
 		return nil
+	}
+	if a := t.ifaceRecvArgs(c); a != nil { // stage 11 (loops_iface.go): the value receiver of x.m()
+		return a
 	}
 	var out []string
 	if pv := t.pkgRecv(c); pv != nil {
